@@ -104,6 +104,12 @@ pub fn obs_digest(o: &Obs) -> u64 {
 
 /// the config part of an observation against the reference model
 pub fn check_cfg_model(id: &str, o: &Obs, m: &WModel, when: &str) -> VResult<()> {
+    check_cfg_model_opt(id, o, m, when, false)
+}
+
+/// `dups_tolerated`: a recorded finding (replay of entries already contained in the snapshot) has put
+/// duplicate entries into a history earlier in this run; compare the history without duplicates
+pub fn check_cfg_model_opt(id: &str, o: &Obs, m: &WModel, when: &str, dups_tolerated: bool) -> VResult<()> {
     for t in 0..TENANTS.len() as u8 {
         for g in 0..GROUPS.len() as u8 {
             for d in 0..DATA_IDS.len() as u8 {
@@ -123,10 +129,14 @@ pub fn check_cfg_model(id: &str, o: &Obs, m: &WModel, when: &str) -> VResult<()>
                         let mut want: Vec<String> = e.history.clone();
                         want.reverse();
                         want.truncate(100);
-                        let have: Vec<String> = h.iter().map(|x| x.1.clone()).collect();
+                        let mut have: Vec<String> = h.iter().map(|x| x.1.clone()).collect();
+                        if dups_tolerated {
+                            let mut seen = std::collections::HashSet::new();
+                            have.retain(|c| seen.insert(c.clone()));
+                        }
                         vensure!(have == want, &format!("{}.history", id), "{}: key {} history (newest first) {:?} but expected {:?}", when, k, have.iter().map(|s| trunc(s)).collect::<Vec<_>>(), want.iter().map(|s| trunc(s)).collect::<Vec<_>>());
                         let mut ids: Vec<i64> = h.iter().map(|x| x.0).collect();
-                        let sorted_desc = ids.windows(2).all(|w| w[0] > w[1]);
+                        let sorted_desc = dups_tolerated || ids.windows(2).all(|w| w[0] > w[1]);
                         vensure!(sorted_desc, &format!("{}.history_ids", id), "{}: key {} history ids not strictly decreasing (newest first): {:?}", when, k, ids);
                         ids.clear();
                     }
@@ -206,7 +216,7 @@ pub async fn exec_c01(script: Value) -> ExecResult {
                     settle().await;
                     let when = format!("step {} (restart #{})", i, restarts + 1);
                     let before = observe(&n, "pre").await.map_err(|e| Violation::new(&format!("{}.observe_failed", id), format!("{} before stop: {}", when, e)))?;
-                    check_cfg_model(id, &before, &m, &format!("{} before the stop", when))?;
+                    check_cfg_model_opt(id, &before, &m, &format!("{} before the stop", when), !findings.is_empty())?;
                     let last_log = metrics(&n).last_log_index;
                     let compactions = match n.app.raft_store.get_current_snapshot().await { Ok(Some(s)) => s.index, _ => 0 };
                     if compactions > 0 {
@@ -220,6 +230,20 @@ pub async fn exec_c01(script: Value) -> ExecResult {
                     stop_node(1).await;
                     restarts += 1;
                     n = start_node(&root, 1, true, None, &cfg.node).await.map_err(|e| Violation::new(&format!("{}.restart_failed", id), format!("{}: node does not start: {}", when, e)))?;
+                    // every incarnation outlives its own one-time start-up timers (default-admin check at
+                    // +10.5 s, namespace sync at +5 s): a killed incarnation's actors cannot be destroyed inside
+                    // the shared runtime, and its timers firing later would act on stale state
+                    if std::env::var("RNSIM_DEBUG").is_ok() {
+                        for i in 0..13 {
+                            advance(1_000).await;
+                            if let Ok(recs) = snapshot_records(&n, "dbg").await {
+                                let adm = recs.iter().find(|r| r.0 == "T_USER" && r.1 == b"admin").map(|r| sim::fnv64(&r.2));
+                                eprintln!("dbg restart#{} +{}s records={} admin={:x?} leader={:?} applied={}", restarts, i + 1, recs.len(), adm, metrics(&n).current_leader, metrics(&n).last_applied);
+                            }
+                        }
+                    } else {
+                        advance(12_000).await;
+                    }
                     vensure!(wait_applied(&n, last_log, 40_000).await, &format!("{}.not_caught_up", id), "{}: 40 simulated s after the restart the node has applied {} of {} log entries (leader {:?})", when, metrics(&n).last_applied, last_log, metrics(&n).current_leader);
                     advance(200).await;
                     // the start-up load (snapshot + log suffix) runs asynchronously; the statement does not
@@ -234,13 +258,21 @@ pub async fn exec_c01(script: Value) -> ExecResult {
                         waited += 1;
                         after = observe(&n, "post").await.map_err(|e| Violation::new(&format!("{}.observe_failed", id), format!("{} after restart: {}", when, e)))?;
                     }
-                    if before != after && only_sequences_advanced(&before, &after) {
-                        // root-cause signature: a compaction ran concurrently with later applies, the snapshot
-                        // content is newer than its header index and the replay applies a non-idempotent
-                        // sequence request a second time
-                        sim::count("probe.replay_applies_entries_already_in_snapshot", 1);
-                        if findings.is_empty() {
-                            findings.push(Violation::new(&format!("{}.replay_applies_entries_already_in_snapshot", id), format!("{}: entries newer than the snapshot header index were already contained in the snapshot and are applied again by the start-up replay: a sequence counter is larger and/or change-history entries appear twice after the restart: {}", when, obs_diff(&before, &after))));
+                    // root-cause signatures of two recorded defects (see known_findings.jsonl); anything else is a violation
+                    let (b2, a2, admin_changed) = strip_admin(&before, &after);
+                    let replay_sig = b2 != a2 && only_sequences_advanced(&b2, &a2);
+                    if before != after && (b2 == a2 || replay_sig) {
+                        if admin_changed {
+                            sim::count("probe.default_admin_recreated_during_startup_load", 1);
+                            if !findings.iter().any(|f| f.clause.ends_with("default_admin_recreated_during_startup_load")) {
+                                findings.push(Violation::new(&format!("{}.default_admin_recreated_during_startup_load", id), format!("{}: the stored admin user (password hash, timestamps) differs after the restart: 0.5 s after start the node, already leader, found the user table still empty because the start-up load had not finished, and created the default admin again: {}", when, records_diff(&before.records, &after.records))));
+                            }
+                        }
+                        if replay_sig {
+                            sim::count("probe.replay_applies_entries_already_in_snapshot", 1);
+                            if !findings.iter().any(|f| f.clause.ends_with("replay_applies_entries_already_in_snapshot")) {
+                                findings.push(Violation::new(&format!("{}.replay_applies_entries_already_in_snapshot", id), format!("{}: entries newer than the snapshot header index were already contained in the snapshot and are applied again by the start-up replay: a sequence counter is larger and/or change-history entries appear twice after the restart: {}", when, obs_diff(&b2, &a2))));
+                            }
                         }
                     } else if before != after {
                         let files = tokio::fs::list_files(&format!("{}/n1/", root));
@@ -359,6 +391,22 @@ pub fn only_sequences_advanced(before: &Obs, after: &Obs) -> bool {
     something
 }
 
+/// remove the admin user's table record from both observations; true when it differed
+pub fn strip_admin(before: &Obs, after: &Obs) -> (Obs, Obs, bool) {
+    let is_admin = |r: &(String, Vec<u8>, Vec<u8>)| r.0 == "T_USER" && r.1 == b"admin";
+    let vb = before.records.iter().find(|r| is_admin(r)).map(|r| r.2.clone());
+    let va = after.records.iter().find(|r| is_admin(r)).map(|r| r.2.clone());
+    let changed = vb.is_some() && va.is_some() && vb != va;
+    if !changed {
+        return (before.clone(), after.clone(), false);
+    }
+    let mut b = before.clone();
+    let mut a = after.clone();
+    b.records.retain(|r| !is_admin(r));
+    a.records.retain(|r| !is_admin(r));
+    (b, a, true)
+}
+
 pub fn gen_wstep(rng: &mut Rng, nodes: u64, weights: &[u32; 9]) -> WStep {
     let node = rng.range(1, nodes);
     let total: u32 = weights.iter().sum();
@@ -434,5 +482,147 @@ impl Check for C01 {
             }
         }
         out
+    }
+}
+
+// ---------------------------------------------------------------------------
+// C07: leader apply path, follower replication path and start-up replay path agree
+
+pub struct C07;
+
+#[derive(Serialize, Deserialize, Clone, Debug, Default)]
+pub struct C07Cfg {
+    pub base: NCfg,
+    /// where (fraction in percent of the log) the follower is restarted; 0 = never
+    pub restart_at_pct: u64,
+    /// compaction on the follower before the restart
+    pub compact_before_restart: bool,
+    pub max_batch: u64,
+}
+
+pub async fn exec_c07(script: Value) -> ExecResult {
+    use async_raft_ext::raft::EntryPayload;
+    let id = "C07";
+    let seed = script["seed"].as_u64().unwrap_or(1);
+    let cfg: C07Cfg = serde_json::from_value(script["cfg"].clone()).unwrap_or_default();
+    let steps: Vec<WStep> = match serde_json::from_value(script["steps"].clone()) {
+        Ok(s) => s,
+        Err(e) => return ExecResult { violation: Some(Violation::new("harness.script", e.to_string())), info: RunInfo::default() },
+    };
+    tokio::fs::set_cfg(disk_cfg(&cfg.base));
+    tokio::fs::with_disk(|d| {
+        d.journal_on = false;
+        d.log_ops = false;
+    });
+    net_reset(seed, cfg.base.net.clone());
+    let root = run_root(seed);
+    let mut rng = Rng::derive(seed, "C07.exec", 0);
+    let mut digest = 0u64;
+    let mut n_entries = 0usize;
+    let mut restarted = false;
+    let r: VResult<()> = async {
+        // path A: a real leader applies the workload
+        let a = start_node(&root, 1, true, None, &cfg.base.node).await.map_err(|e| Violation::new("harness.start", e.to_string()))?;
+        vensure!(wait_leader(&a, 20_000).await.is_some(), &format!("{}.no_leader", id), "single node did not become leader");
+        advance(16_000).await;
+        let mut m = WModel::default();
+        for (i, st) in steps.iter().enumerate() {
+            sim::event(&format!("step {} {}", i, serde_json::to_string(st).unwrap_or_default()));
+            let out = do_step(&a, st, &mut m, 30_000).await;
+            if let OpOutcome::Timeout = out {
+                vfail!(&format!("{}.op_hang", id), "step {} {:?} did not answer on the leader", i, st);
+            }
+        }
+        settle().await;
+        advance(200).await;
+        let last = metrics(&a).last_log_index;
+        vensure!(wait_applied(&a, last, 20_000).await, &format!("{}.leader_not_applied", id), "leader did not apply its own log");
+        let entries = a.app.raft_store.get_log_entries(1, last + 1).await.map_err(|e| Violation::new(&format!("{}.read_log", id), e.to_string()))?;
+        vensure!(entries.len() as u64 == last, &format!("{}.read_log", id), "leader log has {} entries but last index is {}", entries.len(), last);
+        n_entries = entries.len();
+        let obs_a = observe(&a, "A").await.map_err(|e| Violation::new(&format!("{}.observe_failed", id), e.to_string()))?;
+        check_cfg_model(id, &obs_a, &m, "leader path")?;
+        kill_node(1).await;
+
+        // path B (+C): a passive node receives the same committed entries through the follower path
+        let mut b = start_node(&root, 2, false, None, &cfg.base.node).await.map_err(|e| Violation::new("harness.start", e.to_string()))?;
+        advance(500).await;
+        let restart_at = if cfg.restart_at_pct > 0 { (entries.len() as u64 * cfg.restart_at_pct / 100).max(1) as usize } else { usize::MAX };
+        let mut pos = 0usize;
+        while pos < entries.len() {
+            let mut n = rng.range(1, cfg.max_batch.max(1)) as usize;
+            if pos < restart_at && pos + n > restart_at {
+                n = restart_at - pos;
+            }
+            let end = (pos + n).min(entries.len());
+            let batch = &entries[pos..end];
+            b.app.raft_store.replicate_to_log(batch).await.map_err(|e| Violation::new(&format!("{}.follower_append", id), format!("replicate_to_log({}..{}) failed: {}", pos + 1, end, e)))?;
+            let datas: Vec<(&u64, &rnacos::raft::store::ClientRequest)> = batch.iter().filter_map(|e| match &e.payload { EntryPayload::Normal(nm) => Some((&e.index, &nm.data)), _ => None }).collect();
+            if !datas.is_empty() {
+                b.app.raft_store.replicate_to_state_machine(&datas).await.map_err(|e| Violation::new(&format!("{}.follower_apply", id), format!("replicate_to_state_machine failed: {}", e)))?;
+            }
+            pos = end;
+            if pos == restart_at && !restarted {
+                // path C: start-up replay (snapshot + log up to the recorded applied index), then on through the follower path
+                settle().await;
+                if cfg.compact_before_restart {
+                    let _ = within(30_000, b.app.raft_store.do_log_compaction()).await;
+                    sim::count("probe.follower_compacted_before_restart", 1);
+                    settle().await;
+                }
+                stop_node(2).await;
+                b = start_node(&root, 2, false, None, &cfg.base.node).await.map_err(|e| Violation::new(&format!("{}.restart_failed", id), e.to_string()))?;
+                advance(3_000).await;
+                restarted = true;
+                sim::count("probe.follower_restarted_mid_log", 1);
+            }
+        }
+        settle().await;
+        advance(500).await;
+        let mut obs_b = observe(&b, "B").await.map_err(|e| Violation::new(&format!("{}.observe_failed", id), e.to_string()))?;
+        let mut waited = 0;
+        while obs_b != obs_a && waited < 20 {
+            advance(500).await;
+            waited += 1;
+            obs_b = observe(&b, "B").await.map_err(|e| Violation::new(&format!("{}.observe_failed", id), e.to_string()))?;
+        }
+        vensure!(obs_a == obs_b, &format!("{}.paths_differ", id), "the node fed through the follower path{} serves something else than the leader that applied the same {} entries: {}", if restarted { " (with a restart in the middle: start-up replay)" } else { "" }, entries.len(), obs_diff(&obs_a, &obs_b));
+        digest = obs_digest(&obs_b);
+        Ok(())
+    }
+    .await;
+    let info = RunInfo { digest, nontrivial: n_entries >= 10, info: json!({"entries": n_entries, "restarted": restarted}), findings: vec![] };
+    for n in live_nodes() {
+        kill_node(n.id).await;
+    }
+    ExecResult { violation: r.err(), info }
+}
+
+impl Check for C07 {
+    fn id(&self) -> &'static str {
+        "C07"
+    }
+    fn generate(&self, seed: u64, _tier: Tier) -> Value {
+        let mut rng = Rng::derive(seed, "C07.gen", 0);
+        let mut cfg = C07Cfg::default();
+        cfg.base.nodes = 1;
+        cfg.base.node.snapshot_log_size = 1_000_000;
+        if rng.chance(0.4) {
+            cfg.base.disk_p_delay = 0.2;
+            cfg.base.disk_max_delay_us = *rng.pick(&[200u64, 5_000]);
+        }
+        cfg.restart_at_pct = if rng.chance(0.6) { rng.range(5, 95) } else { 0 };
+        cfg.compact_before_restart = rng.chance(0.5);
+        cfg.max_batch = *rng.pick(&[1u64, 2, 5, 20, 1000]);
+        let n = rng.range(5, 80);
+        let mut steps = vec![];
+        let w = [40u32, 10, 8, 4, 3, 10, 4, 8, 4];
+        for _ in 0..n {
+            steps.push(gen_wstep(&mut rng, 1, &w));
+        }
+        json!({"check": "C07", "seed": seed, "cfg": cfg, "steps": steps})
+    }
+    fn execute(&self, script: Value) -> LocalFut<ExecResult> {
+        Box::pin(exec_c07(script))
     }
 }
